@@ -292,6 +292,17 @@ func (x *Exec) loopEnter(st *State, fi int, li *loopInfo, from *ssa.BasicBlock) 
 		}
 	}
 	names := sortedKeys(rec.heap)
+	// a loop with a modifies clause changes, of the pre-existing objects, only
+	// the listed ones: every other object-indexed array touched in the body is
+	// treated as none(array) - kept at the cut and checked at the back edge
+	// (objects allocated during the loop may be written freely)
+	if spec != nil && spec.HasMod {
+		for _, name := range names {
+			if _, listed := modObjs[name]; !listed && strings.HasPrefix(x.heapSorts[name], "(Array Ref") && !strings.HasPrefix(name, "G$") {
+				modObjs[name] = []Term{}
+			}
+		}
+	}
 	for _, name := range names {
 		sortS := x.heapSorts[name]
 		if sortS == "" {
@@ -318,6 +329,10 @@ func (x *Exec) loopEnter(st *State, fi int, li *loopInfo, from *ssa.BasicBlock) 
 		st.now = n
 	}
 	fr.loopEntryHeap[li.ord] = copyHeap(st.heap)
+	if st.ghostLoc == nil {
+		st.ghostLoc = map[string]Value{}
+	}
+	st.ghostLoc[fmt.Sprintf("$loopnow.%d.%d", fi, li.ord)] = Value{T: st.now}
 	fr.loopsOn[li.header] = true
 	// 4. assume invariants
 	if spec != nil {
@@ -459,7 +474,11 @@ func (x *Exec) loopBackEdge(st *State, fi int, li *loopInfo) {
 			for _, o := range objs {
 				ds = append(ds, fmt.Sprintf("(distinct ?r %s)", o.S))
 			}
-			goal := Term{fmt.Sprintf("(forall ((?r Ref)) (=> (and true %s) (= (select %s ?r) (select %s ?r))))", strings.Join(ds, " "), cur.S, start.S), "Bool"}
+			// objects allocated during the loop may be written freely
+			if ln, ok := st.ghostLoc[fmt.Sprintf("$loopnow.%d.%d", fi, li.ord)]; ok {
+				ds = append(ds, fmt.Sprintf("(< (atime ?r) %s)", ln.T.S))
+			}
+			goal := Term{fmt.Sprintf("(forall ((?r Ref)) (! (=> (and true %s) (= (select %s ?r) (select %s ?r))) :pattern ((select %s ?r))))", strings.Join(ds, " "), cur.S, start.S, cur.S), "Bool"}
 			x.oblige(st, "loop.frame", name, anchor, goal, li.header.Instrs[0].Pos())
 		}
 	}
@@ -557,11 +576,22 @@ func (x *Exec) resolveModifies(st *State, env *Env, item string, out map[string]
 
 // havocAll forgets the whole heap except arrays with the given name prefixes.
 func (x *Exec) havocAll(st *State, except []string) {
+	x.havocAllG(st, except, true)
+}
+
+// havocAllG: keepGhost=false also forgets the ghost state (a callee under
+// contract WITHOUT a modifies clause may append to the effect log and change
+// ghost variables: its ensures clauses say how).
+func (x *Exec) havocAllG(st *State, except []string, keepGhost bool) {
 	x.recAll(except)
 	keep := map[string]Term{}
 	// ghost state (effect log, ghost variables) is only ever changed by ghost
-	// statements and emits clauses, never by unknown code
-	except = append(append([]string(nil), except...), "G$")
+	// statements, emits clauses and callees whose contract says so, never by
+	// unknown code
+	except = append([]string(nil), except...)
+	if keepGhost {
+		except = append(except, "G$")
+	}
 	for _, name := range sortedKeys(x.heapSorts) {
 		for _, p := range except {
 			if strings.HasPrefix(name, p) {
